@@ -77,6 +77,28 @@ def plainCharsL : List Tree → List Nat
   | k :: ks => plainChars k ++ plainCharsL ks
 end
 
+
+def mframe? : String → Option MFrame
+  | "g" => some none | "a" => some (some none) | "c" => some (some none)
+  | "m" => some (some (some true)) | "e" => some (some (some true)) | "b" => some (some (some false))
+  | _ => none
+
+/-- args of the `extend` stream: `n` = a node (original parent `item 100`), `f<k>` = a fragment with k children -/
+def earg? (i : Nat) (w : String) : Option Arg :=
+  let mk (r : Ref) (p : Ref) : Tree := .node { PlasVerif.Model.Digest.defaultPar with ref := r } p []
+  if w == "n" then some (.node (mk (.item (1000 + i)) (.item 100)))
+  else if w.startsWith "f" then
+    (w.drop 1).toString.toNat?.map fun k =>
+      .frag (.item 300) ((List.range k).map fun j => mk (.item (2000 + 10 * i + j)) (.item (200 + i)))
+  else none
+
+def eargs? : Nat → List String → Option (List Arg)
+  | _, [] => some []
+  | i, w :: r => do let a ← earg? i w; let as ← eargs? (i + 1) r; pure (a :: as)
+
+def labelCode (target : Ref) (orig : List Tree) (res : List Tree) : String :=
+  String.join ((List.zip orig res).map fun (o, t) => if t.parent == target then "T" else if t.parent == o.parent then "K" else "?")
+
 def handle : List String → String
   | "digest" :: mode :: cs :: "|" :: ws =>
     match stream? (ws.length + 1) ws with
@@ -88,6 +110,25 @@ def handle : List String → String
         | some ts => dumpL .out ts
       let wf := boolStr (cleanL s)
       s!"{model}\t{dots (plainCharsL s)}\t{wf}"
+  | "mathmode" :: ws =>
+    -- frames in push order (last = innermost)
+    match ws.mapM mframe? with
+    | some fs =>
+      let st := fs.reverse
+      -- spec: the innermost frame that declares a mode decides, by the property text; none = text mode
+      let spec := match (st.filterMap fun f => match f with | some (some b) => some b | _ => none) with
+        | b :: _ => b | [] => false
+      s!"{boolStr (isMathMode st)}\t{boolStr spec}"
+    | none => "bad-op"
+  | "extend" :: isf :: hasp :: sp :: "|" :: ws =>
+    match eargs? 0 ws with
+    | some args =>
+      let c : Cont := { ref := .item 1, isFrag := isf == "1", parent := if hasp == "1" then .item 2 else .unset }
+      let res := extend c (sp == "1") args
+      let orig := args.flatMap Arg.kids
+      let spec := String.join (orig.map fun _ => if sp == "1" then "T" else "K")
+      s!"{labelCode c.target orig res}\t{spec}"
+    | none => "bad-op"
   | "subs" :: ws =>
     match natList? ws with
     | some cs => s!"{dots (applySubs charsubs cs)}\t-"
